@@ -14,4 +14,14 @@ func init() {
 	cosmosFactory = &vaultFactory{name: "cosmosdb", new: func(ctx context.Context, reg *registry.Register) (storage.Vault, error) {
 		return cosmosdb.NewFakeVaultForVerif(reg), nil
 	}}
+	// the same fake, its answers to the readers' queries re-served in pages of one item (with and without an empty page
+	// in the middle): only for the listing/searching checks
+	cosmosPagedFactories = []vaultFactory{
+		{name: "cosmosdb-paged", new: func(ctx context.Context, reg *registry.Register) (storage.Vault, error) {
+			return cosmosdb.NewPagedFakeVaultForVerif(reg, 1, false), nil
+		}},
+		{name: "cosmosdb-paged-emptypage", new: func(ctx context.Context, reg *registry.Register) (storage.Vault, error) {
+			return cosmosdb.NewPagedFakeVaultForVerif(reg, 1, true), nil
+		}},
+	}
 }
